@@ -648,7 +648,16 @@ impl HealthChecker {
             return;
         };
 
-        let Some(backend_ref) = backend_list.find_backend(&address) else {
+        // A probe belongs to one backend: the (backend_id, address) pair it was
+        // started for. Several backends of a cluster may share an address (A/B
+        // variants of one server, weighted variants); looking the backend up by
+        // address alone credited every one of their probes to the first of them,
+        // which then crossed its thresholds early while the others were never
+        // marked DOWN.
+        let Some(backend_ref) = backend_list.backends.iter().find(|backend| {
+            let backend = backend.borrow();
+            backend.address == address && backend.backend_id == backend_id
+        }) else {
             #[cfg(sozu_verif)]
             crate::verif::emit_s(
                 "hc_result",
@@ -1249,6 +1258,35 @@ mod tests {
 
         assert!(state.record_success(3));
         assert!(state.is_healthy());
+    }
+
+    #[test]
+    fn probe_result_is_credited_to_the_probed_backend_only() {
+        use crate::backends::Backend;
+
+        // two backends of one cluster share an address
+        let address: SocketAddr = "127.0.0.1:9401".parse().unwrap();
+        let mut map = BackendMap::new();
+        map.add_backend("cluster", Backend::new("a", address, None, None, None));
+        map.add_backend("cluster", Backend::new("b", address, None, None, None));
+        let map = Rc::new(RefCell::new(map));
+        let config = h2c_config(0);
+
+        for _ in 0..config.unhealthy_threshold {
+            HealthChecker::record_check_result(&map, "cluster", "b", address, false, &config);
+        }
+
+        let map = map.borrow();
+        let list = &map.backends["cluster"].backends;
+        assert_eq!(list[0].borrow().backend_id, "a");
+        assert!(list[0].borrow().health.is_healthy());
+        assert_eq!(list[0].borrow().health.consecutive_failures, 0);
+        assert_eq!(list[1].borrow().backend_id, "b");
+        assert!(!list[1].borrow().health.is_healthy());
+        assert_eq!(
+            list[1].borrow().health.consecutive_failures,
+            config.unhealthy_threshold
+        );
     }
 
     fn h2c_config(expected: u32) -> HealthCheckConfig {
